@@ -38,9 +38,10 @@ if "--nodemo" not in sys.argv:
     r1 = sh(demo, cwd=wt)
     res["demo_with_patch_rc"] = r1.returncode
     res["demo_with_patch_tail"] = r1.stdout[-600:]
-    sh("git -C %s stash" % wt)
+    # no `git stash` here: the stash is shared by all worktrees of a repository, and concurrent users cross their changes
+    sh("git -C %s apply -R %s/patch.diff" % (wt, out))
     r2 = sh(demo, cwd=wt)
-    sh("git -C %s stash pop" % wt)
+    sh("git -C %s apply %s/patch.diff" % (wt, out))
     res["demo_without_patch_rc"] = r2.returncode
     res["demo_without_patch_tail"] = r2.stdout[-300:]
 res["checks"] = {}
